@@ -300,12 +300,14 @@ func init() {
 					Witnesses: []string{"child-stopped-on-its-own", "third-party-poisons-child-during-shutdown", "child-panics-in-Stopped"}, Deadline: 60 * time.Minute, ReplayAttempts: 8},
 				{Name: "stopping-child-is-replaced", Pkg: "actor", Func: "ZZ_C08", Preempt: 2, Params: pm("D", 1, "F", 2, "mode", 2),
 					Witnesses: []string{"replacement-spawned"}, Deadline: 60 * time.Minute, ReplayAttempts: 8},
+				{Name: "child-dies-during-its-own-start", Pkg: "actor", Func: "ZZ_C08", Preempt: 1, Params: pm("D", 1, "F", 2, "mode", 6),
+					Witnesses: []string{"child-died-during-its-start"}, Deadline: 60 * time.Minute, ReplayAttempts: 8},
 				{Name: "parent-restarted-then-stopped", Pkg: "actor", Func: "ZZ_C08", Preempt: 1, Params: pm("D", 1, "F", 2, "mode", 4),
 					Witnesses: []string{"parent-restarted-with-children", "app-context-cancelled-before-shutdown"}, Deadline: 60 * time.Minute, ReplayAttempts: 8},
 			}
 		},
 		Bounds: func(tier string) string {
-			return fmt.Sprintf("tree of depth 1 and fan-out 2 with real inboxes; phase 1: optionally one child is poisoned by a third party and has stopped, then Children() is probed; phase 2: the root is stopped or poisoned, optionally while a third party poisons one child concurrently, or while one child panics (once) in its Stopped handler; preemption bound %d. Second harness: a third party poisons a child, which asks the root for a replacement under the same name and id from inside its Stopped handler (the root may handle the request while the old incarnation is still finishing); afterwards Children() lists the live replacement and a shutdown of the root takes it down; preemption bound 2. Third harness: the root is spawned WithContext(app context), may panic once on a user message and be restarted before Children() is probed, and the app context may be cancelled before the root is stopped or poisoned; preemption bound 1", tierSel(tier, 1, 2))
+			return fmt.Sprintf("tree of depth 1 and fan-out 2 with real inboxes; phase 1: optionally one child is poisoned by a third party and has stopped, then Children() is probed; phase 2: the root is stopped or poisoned, optionally while a third party poisons one child concurrently, or while one child panics (once) in its Stopped handler; preemption bound %d. Second harness: a third party poisons a child, which asks the root for a replacement under the same name and id from inside its Stopped handler (the root may handle the request while the old incarnation is still finishing); afterwards Children() lists the live replacement and a shutdown of the root takes it down; preemption bound 2. Third harness: the root is spawned WithContext(app context), may panic once on a user message and be restarted before Children() is probed, and the app context may be cancelled before the root is stopped or poisoned; preemption bound 1. Fourth harness: the root also spawns a child that panics in Started with no restart budget (it terminates during its own start): Children() lists only the live children, shutdown completes", tierSel(tier, 1, 2))
 		},
 		Outside:     []string{"children that crash on user messages during the shutdown", "deeper / wider trees (depth 2 did not finish within 10 minutes and is not registered)", "map iteration order of the children map: one order explored symbolically (native replays see Go's random order, hence several replay attempts)"},
 		Assumptions: thrAssume("bare engine, real process/Inbox/Context/SafeMap; node receivers record Stopped and check their descendants at that instant; the stop context's cancellation instant is observed through the context model's OnCancel hook"),
